@@ -171,6 +171,8 @@ def trun(m, fn, env, cls, own_digest=(), inline=16, max_iter=14, filt=None):
     outs = it.run_function(fn, env=env)
     if it.imprecise:
         raise D.Imprecise('; '.join(sorted(set(it.imprecise))[:3]))
+    if it.unknown_branches:
+        raise D.Imprecise('the outcome of a test is not determined on this heap: ' + '; '.join(sorted(set(it.unknown_branches))[:3]))
     return outs
 
 
